@@ -57,7 +57,7 @@ func genDirfsCase(r *Rng) fsCase {
 		case k < 68:
 			c.Ops = append(c.Ops, fsOp{K: "remove", P: p})
 		case k < 76:
-			c.Ops = append(c.Ops, fsOp{K: "chmod", P: p, N: Pick(r, []int{0o644, 0o600, 0o755, 0o700})})
+			c.Ops = append(c.Ops, fsOp{K: "chmod", P: p, N: Pick(r, []int{0o644, 0o600, 0o755, 0o700, 1<<23 | 0o755, 1<<22 | 0o775, 1<<20 | 0o777, 1<<23 | 1<<22 | 0o750})})
 		case k < 82:
 			c.Ops = append(c.Ops, fsOp{K: "setxattr", P: p, Q: Pick(r, fsAttrs), D: Pick(r, fsData)})
 		case k < 88:
@@ -147,8 +147,18 @@ func runDirfsCase(c fsCase) []Step {
 				verdict = "fail:echo-dir"
 			}
 		case o.K == "chmod":
-			if fi, err := f.Stat(o.P); err != nil || fi.Mode().Perm() != fs.FileMode(o.N).Perm() {
+			// permission bits and set-user-ID / set-group-ID / sticky, through Stat and through the directory listing
+			const keep = fs.ModePerm | fs.ModeSetuid | fs.ModeSetgid | fs.ModeSticky
+			if fi, err := f.Stat(o.P); err != nil || fi.Mode()&keep != fs.FileMode(o.N)&keep {
 				verdict = "fail:echo-mode"
+			} else if des, err := f.ReadDir(filepath.Dir(o.P)); err == nil {
+				for _, de := range des {
+					if de.Name() == filepath.Base(o.P) {
+						if i2, err := de.Info(); err != nil || (i2.Mode()&fs.ModeSymlink == 0 && i2.Mode()&keep != fs.FileMode(o.N)&keep) {
+							verdict = "fail:echo-mode-readdir"
+						}
+					}
+				}
 			}
 		case o.K == "setxattr":
 			if b, err := f.GetXattr(o.P, o.Q); err != nil || string(b) != o.D {
